@@ -5,7 +5,9 @@ Station side (`pkg/station/lib/registration.go`): `sendToDetector` builds a `Sta
 message from a registration (`mkS2D`), `clearDetector` builds the shutdown message (`mkClear`).
 Detector side (`src/sessions.rs`): `impl From<&StationToDetector> for SessionResult` (`convert`),
 `SessionDetails::new` (`sessionNew`), `pubsub_handle_s2d` (`handle`: the conversion runs **before**
-the operation is looked at, also for `Clear`), `pubsub_add_or_update_session`, `pubsub_clear`.
+the operation is looked at, also for `Clear`), `pubsub_add_or_update_session`, `pubsub_clear`; the
+packet path `SessionTracker::drop_stale_sessions` (`dropStale`), `is_tracked_session` (`isTracked`) and
+the tag of a flow (`src/flow_tracker.rs`, `impl Taggable for FlowNoSrcPort`: `flowTag`).
 
 Addresses are byte lists on the Go side (`net.IP` is a byte slice of any length).  The *text* of an
 address field is abstracted by how the detector's parser `str::parse::<IpAddr>()` sees it (`Txt`):
@@ -172,8 +174,25 @@ structure Tag where
   port : Nat
 deriving DecidableEq, Repr
 
+/-- the protocol prefix of a tag: `"t-"` for TCP (6), `"u-"` for UDP (17), `""` for anything else -/
+def tagProto (p : Nat) : Nat := if p = 6 then 6 else if p = 17 then 17 else 0
+
 def tagOf (s : Session) : Tag :=
-  { proto := s.proto, client := if s.phantom.isV6 then none else some s.client, phantom := s.phantom, port := s.dstPort }
+  { proto := tagProto s.proto, client := if s.phantom.isV6 then none else some s.client, phantom := s.phantom, port := s.dstPort }
+
+/-- `FlowNoSrcPort` (`src/flow_tracker.rs`): what the packet path knows about a flow when it asks whether
+the flow belongs to a registered session (`process_packet.rs`: `FlowNoSrcPort::from_flow(flow)`, then
+`FlowTracker::is_phantom_session`).  `proto` is the IP next-header number of the packet. -/
+structure Flow where
+  src : IpAddr
+  dst : IpAddr
+  dstPort : Nat
+  proto : Nat
+deriving DecidableEq, Repr
+
+/-- `impl Taggable for FlowNoSrcPort`: the same rendering as a session's tag, from the packet's fields -/
+def flowTag (f : Flow) : Tag :=
+  { proto := tagProto f.proto, client := if f.dst.isV6 then none else some f.src, phantom := f.dst, port := f.dstPort }
 
 /-- keys of the detector's session map: tags of sessions, or anything that was there before
 (diversions left over from a previous launch of the station) -/
@@ -219,5 +238,27 @@ def apply (now : Nat) (st : Map) : Action → Map
   | .unknownOp => st
 
 def handle (now : Nat) (st : Map) (m : S2D) : Map := apply now st (dispatch m)
+
+/-! ## Detector side: the packet path (`SessionTracker`) -/
+
+/-- `SessionTracker::drop_stale_sessions`: `map.retain(|_, v| *v > right_now)` -/
+def dropStale (now : Nat) (st : Map) : Map := st.filter (fun kv => decide (now < kv.2))
+
+/-- `SessionTracker::is_tracked_session` = `session_exists(flow.tag())`: the flow is forwarded to the
+station iff its tag is a key of the map (the expiry is only looked at by `drop_stale_sessions`). -/
+def isTracked (st : Map) (f : Flow) : Bool := (Map.get? st (.tag (flowTag f))).isSome
+
+/-- what happens at the detector, in order: messages from the station (handled at a clock value), the
+periodic sweep of stale sessions -/
+inductive Evt
+  | msg (now : Nat) (m : S2D)
+  | sweep (now : Nat)
+deriving Repr
+
+def runEvt (st : Map) : Evt → Map
+  | .msg now m => handle now st m
+  | .sweep now => dropStale now st
+
+def run (st : Map) (es : List Evt) : Map := es.foldl runEvt st
 
 end CJ.Detector
